@@ -1,13 +1,12 @@
 import Mdsort.Proofs.FlagsTime
-import Mdsort.Proofs.DestEval
-import Mdsort.Proofs.DestExact
+import Mdsort.Proofs.WorldMtime
 
 /-!
 # C09 - maildir names, flags, subdirectories and timestamps (flag algebra)
 
-This file holds the pure part: parsing flags from a file name, writing them back, the `S`
-adjustment, and the destination (maildir/subdirectory) a sequence of move/flag/flags actions
-computes.  Fresh names and timestamps are world-level statements (Props/World).
+This file holds the pure part: parsing flags from a file name, writing them back, and the
+`S` adjustment.  Destination (maildir/subdirectory of a sequence of move/flag/flags actions),
+fresh names and timestamps are world-level statements (Props/World).
 -/
 
 namespace Mdsort.Props
@@ -40,114 +39,155 @@ example : Model.flagsParse [49, 46, 104, 111, 115, 116, 58, 50, 44, 70, 83] = so
 
 example : Model.flagsStr ⟨2 ^ 5 + 2 ^ 18, 1⟩ 64 = some [58, 50, 44, 70, 83, 97] := by decide
 
-/-! ## Destination of a sequence of move / flag / flags actions
+/-! ## World level: the modification time, fresh names, nothing is replaced
 
-`Spec.dest`: (maildir of the last `move`, else the message's) / (subdirectory of the last `flag`, else
-the message's).  `Model.finalPlace env ml0 actions`: `matches_append` of the actions' entries after the
-match list `ml0`, then the `mh_path` of the last move/flag/flags entry (where `matches_exec` leaves the
-message).  The pinned code agrees with the documentation exactly on `Spec.destOK` (finding F12). -/
+`runPlan plan p w i hist` executes the program on the abstract file system `w` under the fault plan
+`plan`, numbering the calls from `i`; `.1` is the value, `.2.1` the final world, `.2.2` the world
+after every call appended to `hist`.  `maildir_move` issues the `fstatat` of the source as its
+first call (index `i`) unless the source is the stdin spool. -/
 
-/-- For every message `root/sub/name` (`root` not empty, absolute or relative; no `/` in `sub` and `name`,
-`sub` shorter than `NAME_MAX + 1`), every sequence of move/flag/flags actions with non-empty names whose
-joined paths fit `PATH_MAX`, evaluated after any match list without move/flag/flags entries: if the
-sequence is in `Spec.destOK`, the message ends in the documented place. -/
-theorem C09_destination_partial (env : Env) (root sub name : Bytes) (ml0 : MatchList) (actions : List Spec.PathAction)
-    (hpath : env.path = root ++ [47] ++ sub ++ [47] ++ name)
-    (hroot : root ≠ []) (hsub : (47 : UInt8) ∉ sub) (hname : (47 : UInt8) ∉ name)
-    (hsubl : sub.length < NAME_MAX1)
-    (hwf : Spec.actionsWF actions = true) (hfit : Spec.destFits PATH_MAX (root, sub) actions = true)
-    (hml0 : ∀ e ∈ ml0, e.moves = false) (hok : Spec.destOK actions = true) :
-    finalPlace env ml0 actions = if actions.isEmpty then none else some (Spec.destPath (root, sub) actions) :=
-  Proofs.Dest.finalPlace_eq_dest env root sub name ml0 actions hpath hroot hsub hname hsubl hwf hfit hml0 hok
+/-- A moved message keeps its modification time.  For EVERY fault plan that does not make the
+`fstatat` of the source fail (the call with index `i`), source and destination open on existing
+directories, source not the stdin spool: if `maildir_move` reports no error, the message's new
+location `(dst.path, name')` is a name that was not bound before, bound now to the very same file
+(rename on one device) or to the file `maildir_genname` created (copy across devices, `EXDEV`), and
+the modification time of that file is the time the source file had. -/
+theorem C09_mtime (env : PEnv) (src dst : Maildir) (ms : MsgSt) (w : World) (plan : Plan) (i : Nat) (hist : List World)
+    (sh dh : Handle) (fid : Nat)
+    (hsh : src.dirH = some sh) (hdh : dst.dirH = some dh)
+    (hsrc : w.dirPath sh = some src.path) (hdst : w.dirPath dh = some dst.path) (hdir : (w.dir dst.path).isSome)
+    (hstdin : src.stdin = false) (hbound : w.lookup src.path ms.name = some fid)
+    (hstat : ∀ e, plan i ≠ some (.fail e))
+    (hok : (runPlan plan (maildirMove env src dst ms) w i hist).1.2 = false) :
+    ∃ name' fid', (runPlan plan (maildirMove env src dst ms) w i hist).1.1.loc = some (dst.path, name') ∧
+      w.lookup dst.path name' = none ∧
+      (runPlan plan (maildirMove env src dst ms) w i hist).2.1.lookup dst.path name' = some fid' ∧
+      (fid' = fid ∨ fid' = w.nextFid) ∧
+      (runPlan plan (maildirMove env src dst ms) w i hist).2.1.mtime fid' = w.mtime fid :=
+  Proofs.World.move_mtime env src dst ms w plan i hist sh dh fid hsh hdh hsrc hdst hdir hstdin hbound hstat hok
 
-/-- The same for `Model.eval` itself: `c` is the expression the grammar builds from the action list of a
-rule (move / flag / flags nodes joined by `and`; `Proofs.Dest.ActionChain` relates it to the actions with
-their line numbers and asks that each node passes its own length / letter check).  Evaluated in any state
-whose match list has no move/flag/flags entry it matches, and the last move/flag/flags entry of the
-resulting match list - the one whose `mh_path` the message is finally moved to - has the documented path. -/
-theorem C09_destination_eval (env : Env) (rootMsg m : Msg) (st : St) (part : Nat) (c : Expr)
-    (ls : List (Nat × Spec.PathAction)) (hc : Proofs.Dest.ActionChain c ls) (root sub name : Bytes)
-    (hpath : env.path = root ++ [47] ++ sub ++ [47] ++ name)
-    (hroot : root ≠ []) (hsub : (47 : UInt8) ∉ sub) (hname : (47 : UInt8) ∉ name)
-    (hsubl : sub.length < NAME_MAX1)
-    (hwf : Spec.actionsWF (ls.map (·.2)) = true) (hfit : Spec.destFits PATH_MAX (root, sub) (ls.map (·.2)) = true)
-    (hst : ∀ e ∈ st.ml, e.moves = false) (hok : Spec.destOK (ls.map (·.2)) = true) :
-    ∃ st', eval env rootMsg c part m st = (.match, st') ∧
-      lastPath st'.ml = some (Spec.destPath (root, sub) (ls.map (·.2))) :=
-  Proofs.Dest.eval_chain_dest env rootMsg m st part c ls hc root sub name hpath hroot hsub hname hsubl hwf hfit hst hok
+/-- The converse, for every world: when the plan makes the `fstatat` fail, a move that reports no
+error has set NO modification time at all (the table of times is the one before the move) - a
+renamed file keeps its time because it is the same file, a copy has the time of its creation. -/
+theorem C09_mtime_not_set_when_stat_fails (env : PEnv) (src dst : Maildir) (ms : MsgSt) (w : World) (plan : Plan)
+    (i : Nat) (hist : List World) (sh dh : Handle) (fid : Nat) (e : String)
+    (hsh : src.dirH = some sh) (hdh : dst.dirH = some dh)
+    (hsrc : w.dirPath sh = some src.path) (hdst : w.dirPath dh = some dst.path) (hdir : (w.dir dst.path).isSome)
+    (hstdin : src.stdin = false) (hbound : w.lookup src.path ms.name = some fid)
+    (hfail : plan i = some (.fail e))
+    (hok : (runPlan plan (maildirMove env src dst ms) w i hist).1.2 = false) :
+    ∃ name' fid', (runPlan plan (maildirMove env src dst ms) w i hist).1.1.loc = some (dst.path, name') ∧
+      (runPlan plan (maildirMove env src dst ms) w i hist).2.1.lookup dst.path name' = some fid' ∧
+      (fid' = fid ∨ fid' = w.nextFid) ∧
+      (runPlan plan (maildirMove env src dst ms) w i hist).2.1.mtimes = w.mtimes :=
+  Proofs.World.move_mtime_not_set env src dst ms w plan i hist sh dh fid e hsh hdh hsrc hdst hdir hstdin hbound hfail hok
 
-/-- `Spec.destOK` is exact: for all 1093 sequences of at most 6 actions whose names are pairwise distinct (and
-distinct from the message's maildir `/S` and subdirectory `old`), the model ends in the documented place
-if and only if `destOK` holds. -/
-theorem C09_destOK_exact_upto_6 :
-    ∀ n ∈ List.range 7, ∀ ks ∈ Proofs.Dest.kindSeqs n,
-      Proofs.Dest.agrees ks = Spec.destOK (Proofs.Dest.genActions ks) :=
-  Proofs.Dest.destOK_exact_upto_6
+open Proofs.World.C09Ex in
+/-- Known finding F17d, pinned on a witness: all hypotheses of `C09_mtime` hold except that the
+`fstatat` fails; across devices the move still succeeds (no error), and the copy `b/1.2_2.h:2,`
+(file 2) has the time of its creation (0 = "set while the process ran"), not the source's 1000. -/
+theorem C09_mtime_lost_when_stat_fails :
+    (world otherDev).dirPath 0 = some src.path ∧ (world otherDev).dirPath 1 = some dst.path ∧
+    ((world otherDev).dir dst.path).isSome ∧ (world otherDev).lookup src.path ms.name = some 0 ∧
+    (world otherDev).mtime 0 = 1000 ∧ statFails 0 = some (.fail "EIO") ∧
+    (move otherDev statFails).1.2 = false ∧
+    (move otherDev statFails).1.1.loc = some (dst.path, cand2) ∧
+    (move otherDev statFails).2.1.lookup dst.path cand2 = some 2 ∧
+    (move otherDev statFails).2.1.lookup src.path ms.name = none ∧
+    (move otherDev statFails).2.1.mtime 2 = 0 := by
+  decide +kernel
 
-/-- The same statement without `Spec.destOK`: what the documentation promises.  It is false. -/
-def C09_destination : Prop :=
-  ∀ (env : Env) (root sub name : Bytes) (ml0 : MatchList) (actions : List Spec.PathAction),
-    env.path = root ++ [47] ++ sub ++ [47] ++ name →
-    root ≠ [] → (47 : UInt8) ∉ sub → (47 : UInt8) ∉ name → sub.length < NAME_MAX1 →
-    Spec.actionsWF actions = true → Spec.destFits PATH_MAX (root, sub) actions = true →
-    (∀ e ∈ ml0, e.moves = false) →
-    finalPlace env ml0 actions = if actions.isEmpty then none else some (Spec.destPath (root, sub) actions)
+open Proofs.World.C09Ex in
+/-- Non-vacuity of `C09_mtime`, one device (rename) and two devices (copy), destination
+pre-populated with the first candidate name: the message ends up as `b/1.2_2.h:2,` with time 1000,
+the entry `b/1.2_1.h:2,` that was there still is file 1 with time 2000. -/
+example :
+    (world []).dirPath 0 = some src.path ∧ (world []).dirPath 1 = some dst.path ∧ ((world []).dir dst.path).isSome ∧
+    (world []).lookup src.path ms.name = some 0 ∧ (world []).mtime 0 = 1000 ∧
+    (move [] Plan.none).1.2 = false ∧ (move [] Plan.none).1.1.loc = some (dst.path, cand2) ∧
+    (move [] Plan.none).2.1.lookup dst.path cand2 = some 0 ∧ (move [] Plan.none).2.1.mtime 0 = 1000 ∧
+    (move [] Plan.none).2.1.lookup dst.path cand1 = some 1 ∧ (move [] Plan.none).2.1.mtime 1 = 2000 ∧
+    (move otherDev Plan.none).1.2 = false ∧ (move otherDev Plan.none).1.1.loc = some (dst.path, cand2) ∧
+    (move otherDev Plan.none).2.1.lookup dst.path cand2 = some 2 ∧ (move otherDev Plan.none).2.1.mtime 2 = 1000 ∧
+    (move otherDev Plan.none).2.1.lookup dst.path cand1 = some 1 ∧
+    ((move otherDev Plan.none).2.1.file 2).map (·.data) = some [65, 58, 32, 49, 10, 10, 120, 10] := by
+  decide +kernel
 
-/-- Environment of the witnesses: the message `/S/new/1`. -/
-def destWitnessEnv : Env where
-  rx := fun _ _ => .nomatch
-  command := fun _ => 0
-  isDir := fun _ => false
-  now := 0
-  strptime := fun _ => none
-  zoneName := fun _ => none
-  fileTime := fun _ => none
-  dryrun := false
-  path := [47, 83, 47, 110, 101, 119, 47, 49]
+/-- `maildir_genname` returns a fresh name.  Without faults, in a destination directory `p` with
+entries `es`, with fuel for `|es| + 1` attempts (the model's 4096 when `|es| < 4096`) and candidate
+names that fit `NAME_MAX`: it returns a descriptor and a name that was NOT bound in `p`; afterwards
+the name is bound to the new file `w.nextFid`, which is empty and is what the descriptor refers
+to; every entry (of every directory) that was bound is bound to the same file; and the number of
+calls issued - `maildir_genname` issues nothing but exclusive creates - is at most the number of
+candidate names already present plus one. -/
+theorem C09_fresh_name (env : PEnv) (md : Maildir) (flags : Option Bytes) (w : World) (d : Handle) (p : Bytes)
+    (es : List (Bytes × Nat)) (fuel count i : Nat) (hist : List World)
+    (hd : md.dirH = some d) (hp : w.dirPath d = some p) (hes : w.dir p = some es) (hfuel : es.length + 1 ≤ fuel)
+    (hfit : ∀ j, j ≤ es.length → (Proofs.World.cand env flags (count + 1 + j)).length < NAME_MAX1) :
+    ∃ h name, (runPlan Plan.none (genname env md flags fuel count) w i hist).1 = some (h, name) ∧
+      w.lookup p name = none ∧
+      (runPlan Plan.none (genname env md flags fuel count) w i hist).2.1.lookup p name = some w.nextFid ∧
+      (runPlan Plan.none (genname env md flags fuel count) w i hist).2.1.file w.nextFid = some ⟨[], []⟩ ∧
+      (runPlan Plan.none (genname env md flags fuel count) w i hist).2.1.obj h = .file w.nextFid 0 true ∧
+      (∀ q m fid, w.lookup q m = some fid →
+        (runPlan Plan.none (genname env md flags fuel count) w i hist).2.1.lookup q m = some fid) ∧
+      (runPlan Plan.none (genname env md flags fuel count) w i hist).2.2.length ≤
+        hist.length + Proofs.World.presentCount env flags w p count fuel + 1 :=
+  Proofs.World.genname_fresh env md flags w d p es fuel count i hist hd hp hes hfuel hfit
 
-/-- F12, first class: `move "/D" flags "F"` on `/S/new/1` moves the message to `/D/new` and then back to
-`/S/new` (the `flags` entry takes its destination from the original path). -/
-theorem C09_destination_witness_flags_after_move :
-    Spec.destOK [.move [47, 68], .flags [70]] = false ∧
-    finalPlace destWitnessEnv [] [.move [47, 68], .flags [70]] = some [47, 83, 47, 110, 101, 119] ∧
-    Spec.destPath ([47, 83], [110, 101, 119]) [.move [47, 68], .flags [70]] = [47, 68, 47, 110, 101, 119] := by
-  decide
+/-- The safety half, for ALL fault plans, all maildirs, all fuel: whatever `maildir_genname`
+returns and whatever fails, after every call and at the end every directory entry that was bound
+is bound to the same file, and every file that existed has the same content (`O_EXCL` never
+replaces, nothing is written). -/
+theorem C09_fresh_name_never_replaces (env : PEnv) (md : Maildir) (flags : Option Bytes) (w : World) (plan : Plan)
+    (fuel count i : Nat) (hist : List World) (w' : World)
+    (hw' : w' = (runPlan plan (genname env md flags fuel count) w i hist).2.1 ∨
+      w' ∈ (runPlan plan (genname env md flags fuel count) w i hist).2.2.drop hist.length)
+    (q m : Bytes) (fid : Nat) (hb : w.lookup q m = some fid) :
+    w'.lookup q m = some fid ∧ (fid < w.nextFid → w'.file fid = w.file fid) :=
+  Proofs.World.genname_never_replaces env md flags w plan fuel count i hist w' hw' q m fid hb
 
-/-- F12, second class: `move "/B" flag new flag !new` on `/S/new/1` ends in `/S/cur`, not `/B/cur` (the
-"consecutive duplicates" branch of `matches_merge` frees the entry that had inherited `/B`). -/
-theorem C09_destination_witness_duplicate_merge :
-    Spec.destOK [.move [47, 66], .flag [110, 101, 119], .flag [99, 117, 114]] = false ∧
-    finalPlace destWitnessEnv [] [.move [47, 66], .flag [110, 101, 119], .flag [99, 117, 114]]
-      = some [47, 83, 47, 99, 117, 114] ∧
-    Spec.destPath ([47, 83], [110, 101, 119]) [.move [47, 66], .flag [110, 101, 119], .flag [99, 117, 114]]
-      = [47, 66, 47, 99, 117, 114] := by
-  decide
+open Proofs.World.C09Ex in
+/-- Non-vacuity of `C09_fresh_name`: `b` holds the first candidate; two calls, the second name
+(with the model's fuel 4096, and with fuel 8 where the count of present candidates is cheap to
+evaluate). -/
+example :
+    dst.dirH = some 1 ∧ (world []).dirPath 1 = some [98] ∧ (world []).dir [98] = some [(cand1, 1)] ∧
+    [(cand1, 1)].length + 1 ≤ 4096 ∧ [(cand1, 1)].length + 1 ≤ 8 ∧
+    (∀ j, j ≤ 1 → (Proofs.World.cand env (some [58, 50, 44]) (0 + 1 + j)).length < NAME_MAX1) ∧
+    Proofs.World.cand env (some [58, 50, 44]) 1 = cand1 ∧
+    (gen 4096 Plan.none).1 = some (2, cand2) ∧ (gen 4096 Plan.none).2.1.lookup [98] cand2 = some 2 ∧
+    (gen 4096 Plan.none).2.1.lookup [98] cand1 = some 1 ∧ (gen 4096 Plan.none).2.2.length = 2 ∧
+    (gen 8 Plan.none).1 = some (2, cand2) ∧ (gen 8 Plan.none).2.2.length = 2 ∧
+    Proofs.World.presentCount env (some [58, 50, 44]) (world []) [98] 0 8 = 1 := by
+  decide +kernel
 
-theorem C09_destination_false : ¬ C09_destination := by
-  intro h
-  have h1 := h destWitnessEnv [47, 83] [110, 101, 119] [49] [] [.move [47, 68], .flags [70]] rfl (by decide) (by decide) (by decide)
-    (by decide) (by decide) (by decide) (by intro e he; cases he)
-  rw [C09_destination_witness_flags_after_move.2.1] at h1
-  revert h1
-  decide
+/-- `maildir_move` never replaces anything.  For ALL fault plans: after every call of
+`maildir_move` and at its end, every directory entry `(q, m)` (of the destination or of any other
+directory) that existed before and is not the message's own source entry is still bound to the
+same file, and that file has the same content, visible and durable. -/
+theorem C09_move_never_replaces (env : PEnv) (src dst : Maildir) (ms : MsgSt) (ps : Bytes) (w : World) (plan : Plan)
+    (i : Nat) (hist : List World)
+    (hsrc : ∀ sh, src.dirH = some sh → w.dirPath sh = some ps)
+    (hdst : ∀ dh, dst.dirH = some dh → ∃ pd, w.dirPath dh = some pd ∧ (w.dir pd).isSome)
+    (w' : World)
+    (hw' : w' = (runPlan plan (maildirMove env src dst ms) w i hist).2.1 ∨
+      w' ∈ (runPlan plan (maildirMove env src dst ms) w i hist).2.2.drop hist.length)
+    (q m : Bytes) (fid : Nat) (hne : ¬(q = ps ∧ m = ms.name)) (hb : w.lookup q m = some fid) :
+    w'.lookup q m = some fid ∧ (fid < w.nextFid → w'.file fid = w.file fid) :=
+  Proofs.World.move_never_replaces env src dst ms ps w plan i hist hsrc hdst w' hw' q m fid hne hb
 
-/-! Non-vacuity: `flags "F" move "/A" flag !new move "/B" flag new` on `/S/new/1` (both kinds occur twice,
-the last two differ) satisfies every hypothesis, and ends in `/B/new`. -/
-example : Spec.destOK [.flags [70], .move [47, 65], .flag [99, 117, 114], .move [47, 66], .flag [110, 101, 119]] = true ∧
-    Spec.actionsWF [.flags [70], .move [47, 65], .flag [99, 117, 114], .move [47, 66], .flag [110, 101, 119]] = true ∧
-    Spec.destFits PATH_MAX ([47, 83], [110, 101, 119])
-      [.flags [70], .move [47, 65], .flag [99, 117, 114], .move [47, 66], .flag [110, 101, 119]] = true ∧
-    finalPlace destWitnessEnv [] [.flags [70], .move [47, 65], .flag [99, 117, 114], .move [47, 66], .flag [110, 101, 119]]
-      = some [47, 66, 47, 110, 101, 119] := by
-  decide
-
-/-! Non-vacuity of `C09_destination_eval`: the expression of `flags "F" move "/A" flag !new` (lines 3, 4, 5),
-`(flags and move) and flag` as parse.y nests it, is an action chain, and its actions are in `destOK`. -/
-example : Proofs.Dest.ActionChain
-    (.and 5 (.and 4 (.flags 3 [70]) (.move 4 [47, 65])) (.flag 5 [99, 117, 114]))
-    ([(3, .flags [70])] ++ [(4, .move [47, 65])] ++ [(5, .flag [99, 117, 114])]) :=
-  .and _ _ _ _ _ (.and _ _ _ _ _ (.flags _ _ (by decide)) (.move _ _ (by decide))) (.flag _ _ (by decide))
-
-example : Spec.destOK [.flags [70], .move [47, 65], .flag [99, 117, 114]] = true := by decide
+open Proofs.World.C09Ex in
+/-- Non-vacuity of `C09_move_never_replaces`: the pre-populated entry `b/1.2_1.h:2,` under a
+faulty plan, across devices. -/
+example :
+    src.dirH = some 0 ∧ (world otherDev).dirPath 0 = some [97] ∧
+    dst.dirH = some 1 ∧ (world otherDev).dirPath 1 = some [98] ∧ ((world otherDev).dir [98]).isSome ∧
+    ¬(([98] : Bytes) = [97] ∧ cand1 = ms.name) ∧ (world otherDev).lookup [98] cand1 = some 1 ∧
+    1 < (world otherDev).nextFid ∧
+    (move otherDev statFails).2.1.lookup [98] cand1 = some 1 ∧
+    ((move otherDev statFails).2.1.file 1).map (·.data) = some [121] ∧
+    (move otherDev statFails).2.2.length = 13 := by
+  decide +kernel
 
 end Mdsort.Props
